@@ -67,9 +67,30 @@ class Check:
         self.cov["states"] += st["distinct"]
         self.cov["transitions"] += st["states"]
         never = [a for a, c in st["actions"].items() if c["taken"] == 0 and a not in ("Init",)]
+        if never:
+            raise MachineryError(f"vacuity guard: actions never taken in {module} {cfg}: {never}")
         self.cov["models"].append({k: st[k] for k in ("module", "cfg", "states", "distinct", "depth", "wall_s")}
                                   | {"actions": st["actions"], "never_taken": never})
         return st
+
+    def witnesses(self, subdir: str, module: str, consts: str, names: list[str], *, timeout: int = 600, xmx: str = "4g") -> None:
+        """Vacuity guard: each name is a state predicate written as an invariant that TLC must find VIOLATED (the negated
+        antecedent of a property, or 'no state with X'): if TLC finishes without violating it, the property it guards was
+        checked on nothing and the model run proves nothing -> machinery failure."""
+        from concurrent.futures import ThreadPoolExecutor
+
+        def one(name):
+            path = os.path.join(self.rundir, f"W_{module}_{name}_{abs(hash(consts)) % 99991}.cfg")
+            with open(path, "w") as f:
+                f.write("SPECIFICATION Spec\n" + consts + f"INVARIANT {name}\nCHECK_DEADLOCK FALSE\n")
+            st = tlc.run_model(subdir, module, path, rundir=self.rundir, workers=2, coverage=False, timeout=timeout, xmx=xmx, must_pass=False)
+            return name, st
+        with ThreadPoolExecutor(max_workers=8) as ex:
+            for name, st in ex.map(one, names):
+                if st["violated"] != name:
+                    raise MachineryError(f"vacuity guard: witness {name} of {module} was not reached ({st['violated']}, {st['distinct']} states): "
+                                         f"the property it guards is vacuous in this model")
+                self.cov.setdefault("witnesses", []).append({"module": module, "witness": name, "reached_within_states": st["states"]})
 
     # ------------------------------------------------------------------ judging
     def judge(self, subdir: str, module: str, traces: list[dict], *, what: str, shards: int = 16,
